@@ -272,13 +272,16 @@ func OpenCgf(ctx context.Context, wg *sync.WaitGroup) {
 
 // RunSBIServer does what service.Start's sbiServer.Run does, with an application context that is already
 // cancelled: the NRF registration loop gives up at once and the listener routine (startServer) is started.
-func RunSBIServer() error {
+func RunSBIServer() error { return RunSBIServerKeyLog("") }
+
+// RunSBIServerKeyLog is RunSBIServer with a TLS key log file, as `chf -l <file>` starts the server.
+func RunSBIServerKeyLog(tlsKeyLogPath string) error {
 	ctx, cancel := context.WithCancel(context.Background())
 	cancel()
 	a := &App{cfg: factory.ChfConfig, ctx: ctx}
 	a.proc, _ = processor.NewProcessor(a)
 	a.cons, _ = consumer.NewConsumer(a)
-	s, err := sbi.NewServer(a, "")
+	s, err := sbi.NewServer(a, tlsKeyLogPath)
 	if err != nil {
 		return err
 	}
